@@ -648,6 +648,40 @@ def replaceSeg : List Seg → Seg → Seg → List Seg
   | [], _, _ => []
   | g :: gs, old, new => if g = old then new :: gs else g :: replaceSeg gs old new
 
+/-- the middle of `sys_alloc`: put the fresh mapping `[tbase, tbase+tsize)` to use — first heap
+initialisation, extension of the segment holding `top`, prepending to the segment that starts where
+the mapping ends (which then serves the request itself: `inr`), or a new segment -/
+def sys_alloc_place (s : St) (tbase tsize nb : Nat) : M (Sum St (St × Nat)) := do
+  if s.h.top = 0 then
+    -- `top` null means "never initialised"; with a non-empty segment list the code would overwrite
+    -- the head record and lose a segment: an explicit error outcome here
+    failIf (!s.segs.isEmpty) "null-top-with-segments"
+    let la := if s.least_addr = 0 || tbase < s.least_addr then tbase else s.least_addr
+    let s := { s with least_addr := la, segs := [{ base := tbase, size := tsize, recAt := 0 }],
+                      release_checks := MAX_RELEASE_CHECK_RATE }
+    failIf (tsize < top_foot_size) "underflow:sys_alloc-tsize"
+    let s ← init_top s tbase (tsize - top_foot_size)
+    pure (Sum.inl (s.tag "sys-init"))
+  else
+    let ext := match s.segs.find? (fun g => g.top = tbase) with
+      | some sp => if sp.holds s.h.top then some sp else none
+      | none => none
+    match ext with
+    | some sp =>
+      let s := { s with segs := replaceSeg s.segs sp { sp with size := sp.size + tsize } }
+      let s ← init_top s s.h.top (s.h.topsize + tsize)
+      pure (Sum.inl (s.tag "sys-extend"))
+    | none =>
+      let s := { s with least_addr := min tbase s.least_addr }
+      match s.segs.find? (fun g => g.base = tbase + tsize) with
+      | some sq =>
+        let s := { s with segs := replaceSeg s.segs sq { sq with base := tbase, size := sq.size + tsize } }
+        let r ← prepend_alloc (s.tag "sys-prepend") tbase sq.base nb
+        pure (Sum.inr r)
+      | none =>
+        let s ← add_segment s tbase tsize
+        pure (Sum.inl (s.tag "sys-addseg"))
+
 /-- `sys_alloc` -/
 def sys_alloc (s : St) (nb : Nat) : M (St × Nat) := do
   let asize := align_up (nb + top_foot_size + MALLOC_ALIGNMENT) DEFAULT_GRANULARITY
@@ -658,43 +692,7 @@ def sys_alloc (s : St) (nb : Nat) : M (St × Nat) := do
     let tsize := asize
     let fp := s.footprint + tsize
     let s := { s with footprint := fp, maxfp := max s.maxfp fp }
-    let r ← (do
-      if s.h.top = 0 then
-        let la := if s.least_addr = 0 || tbase < s.least_addr then tbase else s.least_addr
-        let s := { s with least_addr := la, segs := [{ base := tbase, size := tsize, recAt := 0 }],
-                          release_checks := MAX_RELEASE_CHECK_RATE }
-        failIf (tsize < top_foot_size) "underflow:sys_alloc-tsize"
-        let s ← init_top s tbase (tsize - top_foot_size)
-        pure (Sum.inl (s.tag "sys-init"))
-      else
-        match s.segs.find? (fun g => g.top = tbase) with
-        | some sp =>
-          if sp.holds s.h.top then
-            let s := { s with segs := replaceSeg s.segs sp { sp with size := sp.size + tsize } }
-            let s ← init_top s s.h.top (s.h.topsize + tsize)
-            pure (Sum.inl (s.tag "sys-extend"))
-          else
-            let s := { s with least_addr := min tbase s.least_addr }
-            match s.segs.find? (fun g => g.base = tbase + tsize) with
-            | some sq =>
-              let s := { s with segs := replaceSeg s.segs sq { sq with base := tbase, size := sq.size + tsize } }
-              let r ← prepend_alloc (s.tag "sys-prepend") tbase sq.base nb
-              pure (Sum.inr r)
-            | none =>
-              let s ← add_segment s tbase tsize
-              pure (Sum.inl (s.tag "sys-addseg"))
-        | none =>
-          let s := { s with least_addr := min tbase s.least_addr }
-          match s.segs.find? (fun g => g.base = tbase + tsize) with
-          | some sq =>
-            let s := { s with segs := replaceSeg s.segs sq { sq with base := tbase, size := sq.size + tsize } }
-            let r ← prepend_alloc (s.tag "sys-prepend") tbase sq.base nb
-            pure (Sum.inr r)
-          | none =>
-            let s ← add_segment s tbase tsize
-            pure (Sum.inl (s.tag "sys-addseg"))
-      : M (Sum St (St × Nat)))
-    match r with
+    match ← sys_alloc_place s tbase tsize nb with
     | .inr r => pure r
     | .inl s =>
       if nb < s.h.topsize then
@@ -753,34 +751,42 @@ def release_unused_segments (s : St) : M (St × Nat) := do
     let rc := if nsegs > MAX_RELEASE_CHECK_RATE then nsegs else MAX_RELEASE_CHECK_RATE
     pure ({ s with segs := hd :: rest', release_checks := rc }, released)
 
+/-- `syscall_free_part(sp.base, sp.size, sp.size - extra)` under its guard: mremap-shrink, munmap of
+the tail when that is refused; returns the number of bytes released (`extra` or 0) -/
+def trim_release (s : St) (sp : Seg) (extra : Nat) : M (St × Nat) := do
+  if sp.size ≥ extra && !has_segment_link s.segs sp then
+    let newsize := sp.size - extra
+    let (ok, s) ← popR s sp.base sp.size newsize
+    if ok then pure (s, extra)
+    else
+      let (ok, s) ← popU s (sp.base + newsize) (sp.size - newsize)
+      pure (s, if ok then extra else 0)
+  else pure (s, 0)
+
+/-- the first half of `sys_trim`: shrink the segment holding `top` (`pad` already includes
+`top_foot_size`) -/
+def trim_top (s : St) (pad : Nat) : M (St × Nat) := do
+  if s.h.topsize > pad then
+    let unit := DEFAULT_GRANULARITY
+    let extra := ((s.h.topsize - pad + unit - 1) / unit - 1) * unit
+    match segment_holding s.segs s.h.top with
+    | none => throw "debug_assert:sys_trim-segment_holding"
+    | some sp =>
+      let (s, released) ← trim_release s sp extra
+      if released ≠ 0 then
+        failIf (s.footprint < released) "underflow:footprint"
+        let s := { s with segs := replaceSeg s.segs sp { sp with size := sp.size - released },
+                          footprint := s.footprint - released,
+                          h := dropEnts s.h (sp.top - released) sp.top }
+        let s ← init_top s s.h.top (s.h.topsize - released)
+        pure (s.tag "trimmed", released)
+      else pure (s.tag "trim-nothing", released)
+  else pure (s, 0)
+
 def sys_trim (s : St) (pad : Nat) : M (St × Bool) := do
   if pad < MAX_REQUEST && s.h.top ≠ 0 then
     let pad := pad + top_foot_size
-    let (s, released) ← (do
-      if s.h.topsize > pad then
-        let unit := DEFAULT_GRANULARITY
-        let extra := ((s.h.topsize - pad + unit - 1) / unit - 1) * unit
-        match segment_holding s.segs s.h.top with
-        | none => throw "debug_assert:sys_trim-segment_holding"
-        | some sp =>
-          let (s, released) ← (do
-            if sp.size ≥ extra && !has_segment_link s.segs sp then
-              let newsize := sp.size - extra
-              let (ok, s) ← popR s sp.base sp.size newsize
-              if ok then pure (s, extra)
-              else
-                let (ok, s) ← popU s (sp.base + newsize) (sp.size - newsize)
-                pure (s, if ok then extra else 0)
-            else pure (s, 0) : M (St × Nat))
-          if released ≠ 0 then
-            failIf (s.footprint < released) "underflow:footprint"
-            let s := { s with segs := replaceSeg s.segs sp { sp with size := sp.size - released },
-                              footprint := s.footprint - released,
-                              h := dropEnts s.h (sp.top - released) sp.top }
-            let s ← init_top s s.h.top (s.h.topsize - released)
-            pure (s.tag "trimmed", released)
-          else pure (s.tag "trim-nothing", released)
-      else pure (s, 0) : M (St × Nat))
+    let (s, released) ← trim_top s pad
     let (s, r2) ← release_unused_segments s
     let released := released + r2
     let s := if released = 0 && s.h.topsize > s.trim_check then { s with trim_check := U64 - 1 } else s
@@ -990,9 +996,9 @@ def memalign_fix (h : Heap) (mem alignment nb : Nat) : M (Heap × Nat) := do
   failIf (align_up mem alignment ≠ mem) "debug_assert:memalign-aligned"
   pure (h, mem)
 
-/-- `memalign` (only called with a power-of-two `alignment > MALLOC_ALIGNMENT`) -/
-def memalign (s : St) (alignment bytes : Nat) : M (St × Nat) := do
-  let alignment := if alignment < MIN_CHUNK_SIZE then MIN_CHUNK_SIZE else alignment
+/-- `memalign` after `if alignment < MIN_CHUNK_SIZE { alignment = MIN_CHUNK_SIZE }` (only called
+with a power-of-two `alignment > MALLOC_ALIGNMENT`) -/
+def memalign_body (s : St) (alignment bytes : Nat) : M (St × Nat) := do
   failIf (MAX_REQUEST < alignment) "underflow:memalign-max_request"
   if bytes ≥ MAX_REQUEST - alignment then pure (s, 0) else
   let nb := request2size bytes
@@ -1001,6 +1007,9 @@ def memalign (s : St) (alignment bytes : Nat) : M (St × Nat) := do
   if mem = 0 then pure (s, 0) else
   let (h, mem) ← memalign_fix s.h mem alignment nb
   pure ({ s with h := h }, mem)
+
+def memalign (s : St) (alignment bytes : Nat) : M (St × Nat) :=
+  memalign_body s (if alignment < MIN_CHUNK_SIZE then MIN_CHUNK_SIZE else alignment) bytes
 
 /-- `Dlmalloc::malloc(size, align)` — what `GlobalAlloc::alloc` calls -/
 def malloc (s : St) (size align : Nat) : M (St × Nat) :=
@@ -1092,5 +1101,14 @@ def Hist.step (hs : Hist) (op : Op) (os : List OsDir) : M (Hist × Out) := do
       let s ← free s b.ptr
       failIf (!s.osq.isEmpty) "os-desync:unused-answers"
       pure ({ st := s, live := hs.live.filter (fun x => x.id ≠ id) }, { ptr := 1, zeroed := false, copy := none })
+
+/-- a whole history: operations with the OS answers each one receives; returns the final state and
+every OS call made, in order -/
+def Hist.run : Hist → List (Op × List OsDir) → M (Hist × List OsEv)
+  | hs, [] => pure (hs, [])
+  | hs, (op, os) :: rest => do
+    let (hs1, _) ← hs.step op os
+    let (hs2, evs) ← hs1.run rest
+    pure (hs2, hs1.st.evs ++ evs)
 
 end TinyVerif.Dl
